@@ -7,7 +7,7 @@ open Model.Diff Spec.Diff
 def applyT (x : DTable) : Op → DTable
   | .addColumn _ c => { x with cols := x.cols ++ [createCol c] }
   | .removeColumn _ c => { x with cols := x.cols.filter (fun k => k.name != c) }
-  | .modifyType _ c ty => { x with cols := updCol x.cols c (fun k => { k with ty := ddlTy ty }) }
+  | .modifyType _ c ty => { x with cols := updCol x.cols c (fun k => { k with ty := declTy ty }) }
   | .modifyNullable _ c b => { x with cols := updCol x.cols c (fun k => { k with nullable := b }) }
   | .modifyDefault _ c d =>
     { x with cols := updCol x.cols c (fun k => { k with dflt := d.map (fun v => sqliteStore (ddlDefault v)) }) }
@@ -94,7 +94,7 @@ def stepC (n : String) : Option DCol → Op → Option DCol
     | some k => some k
     | none => if c.name == n then some (createCol c) else none
   | o, .removeColumn _ c => if c == n then none else o
-  | o, .modifyType _ c ty => if c == n then o.map (fun k => { k with ty := ddlTy ty }) else o
+  | o, .modifyType _ c ty => if c == n then o.map (fun k => { k with ty := declTy ty }) else o
   | o, .modifyNullable _ c b => if c == n then o.map (fun k => { k with nullable := b }) else o
   | o, .modifyDefault _ c d =>
     if c == n then o.map (fun k => { k with dflt := d.map (fun v => sqliteStore (ddlDefault v)) }) else o
@@ -169,7 +169,7 @@ open Model.Diff Spec.Diff
 /-- the column after the alter ops autogenerate emits for (reflected `r`, model `c`) -/
 def alter (cfg : Cfg) (r : RCol) (c : Col) (k : DCol) : DCol :=
   { k with
-    ty := if cfg.compareType && compareType r.ty (ddlTy c.ty) then ddlTy c.ty else k.ty
+    ty := if cfg.compareType && compareType r.ty (ddlTy c.ty) then declTy c.ty else k.ty
     nullable := if r.nullable != c.nullable then c.nullable else k.nullable
     dflt := if cfg.compareDefault && compareDefault r.dflt c.dflt
             then c.dflt.map (fun v => sqliteStore (ddlDefault v)) else k.dflt }
